@@ -8,6 +8,7 @@ import CssVerif.Gen.Productions
 import CssVerif.Driver.DeclOps
 import CssVerif.Driver.SheetOps
 import CssVerif.Driver.CodecOps
+import CssVerif.Driver.NumOps
 open CssVerif CssVerif.Proto
 
 def showTok (t : Tok) : String :=
@@ -44,6 +45,10 @@ def step (line : String) : String :=
   | ["decl", hist] => DeclOps.run hist
   | ["sheet", fx, hist] => SheetOps.run fx hist
   | ["cont", which, hist] => SheetOps.runCont which hist
+  | ["num", fx, om, hex] => NumOps.opNum fx om hex
+  | ["numval", hex] => NumOps.opVal hex
+  | ["hexc", hex] => NumOps.opHex hex
+  | ["hash", m, hex] => NumOps.opHash m hex
   | ["cdet", f, hex] => CodecOps.opDetect f hex
   | ["cdetu", f, hex] => CodecOps.opDetectU f hex
   | ["cfix", f, enc, hex] => CodecOps.opFix f enc hex
